@@ -15,6 +15,7 @@ var cmds = map[string]func([]string) error{
 	"c02hex":    props.C02Hex,
 	"c03":       props.C03,
 	"c04":       props.C04,
+	"c05":       props.C05,
 	"c14":       props.C14,
 	"c16":       props.C16,
 	"c19":       props.C19,
